@@ -37,7 +37,10 @@ type udpMuxedConn struct {
 
 	readWaiting atomic.Int32
 	closed      bool
-	mu          sync.Mutex
+	// removed is set once RemoveConnByUfrag took the conn out of the mux: it must not
+	// bind addresses any more.
+	removed bool
+	mu      sync.Mutex
 
 	// refs counts outstanding sharedPacketConn wrappers handed out by the mux.
 	refs atomic.Int32
@@ -227,6 +230,20 @@ func (c *udpMuxedConn) isClosed() bool {
 	defer c.mu.Unlock()
 
 	return c.closed
+}
+
+func (c *udpMuxedConn) markRemoved() {
+	c.mu.Lock()
+	defer c.mu.Unlock()
+
+	c.removed = true
+}
+
+func (c *udpMuxedConn) isRemoved() bool {
+	c.mu.Lock()
+	defer c.mu.Unlock()
+
+	return c.removed
 }
 
 func (c *udpMuxedConn) getAddresses() []netip.AddrPort {
